@@ -221,6 +221,11 @@ def check_nonce(ctx):
         if c.bb in rcc.live_blocks() and c.res and c.res.startswith("<async_lock::rwlock::RwLockWriteGuard<") and c.res.endswith("core::ops::deref::DerefMut>::deref_mut"):
             n += 1
     ctx.floor(L4, "deref_mut of write guards in request_certificate", n, 5)
+    # a nonce leaves the shared endpoint only for the request that signs with it, and every response — accepted or refused —
+    # puts the server's next nonce back before the endpoint guard is released (rules shared with C04.R2 / C08.R6)
+    from .http_common import fresh_nonce_rule, nonce_update_rule
+    nonce_update_rule(ctx, L4)
+    fresh_nonce_rule(ctx, L4)
 
 
 def check_registration(ctx):
@@ -234,6 +239,14 @@ def check_registration(ctx):
     rcc = prog.async_body(RC)
     regs = rcc.calls_to("acmed::account::Account::register")
     ctx.floor(L5, "Account::register call in request_certificate", len(regs), 1)
+    # check-and-act on the SHARED account: the receiver of synchronize/register is the deref_mut of a write guard of the task's
+    # AccountSync — not a copy that is written back later (lost update between two certificates sharing the account)
+    for c in regs + rcc.calls_to("acmed::account::Account::synchronize"):
+        sl = arg_origins(c, 0)
+        wr = [x for x in sl.calls if acquisition_of(x) is not None and acquisition_of(x)[1] in ("W", "write") and "Account" in acquisition_of(x)[0]]
+        copies = sorted(v for v in sl.via if v.rsplit("::", 1)[-1] in ("clone", "to_owned", "clone_from", "take", "replace", "default"))
+        ctx.require(L5, bool(wr) and not copies, c.where(), "%s acts on the shared account through its write guard (acquisitions %s, copies %s)"
+                    % (c.name.rsplit("::", 1)[1], [x.name.rsplit("::", 1)[-1] for x in wr], copies), [RC, "account-snapshot", c.name.rsplit("::", 1)[1]])
     # guarded by a one-shot latch (`new_reg` today; found by its role, not its name): register is reachable only through the
     # latch's false edge, and the latch is set to true after the registration
     from ..util import latch_flags
